@@ -1,0 +1,153 @@
+//! Verification hooks (off by default).
+//!
+//! This module is compiled only with cargo features `verif-probes` and/or `verif-bounds`.
+//! With both features off the crate contains no trace of it.
+//!
+//! * `verif-probes`: process-wide hit counters and small bit sets at regime decision points, so
+//!   that an external monitor can report which internal regime a workload actually reached.
+//! * `verif-bounds`: precondition checks inside the `*_unchecked` accessors. A failed check sets a
+//!   sticky process-wide flag, prints `VERIF-OOB <site> <index> <limit>` and panics.
+
+#![allow(dead_code)]
+
+use std::sync::atomic::{AtomicBool, AtomicU64, Ordering};
+
+//-----------------------------------------------------------------------------
+
+/// Probe identifiers. The names are returned by [`probe_names`] in the same order.
+pub mod probe {
+    pub const SEL_BUILD_LONG: usize = 0;
+    pub const SEL_BUILD_SHORT: usize = 1;
+    pub const SEL_Q_SUPERBLOCK_START: usize = 2;
+    pub const SEL_Q_LONG: usize = 3;
+    pub const SEL_Q_LONG_PTR_NONZERO: usize = 4;
+    pub const SEL_Q_SHORT_BLOCK_START: usize = 5;
+    pub const SEL_Q_SHORT_SCAN: usize = 6;
+    pub const SEL_Q_SHORT_NEXT_WORD: usize = 7;
+    pub const ONE_ITER_NEXT_SKIP: usize = 8;
+    pub const ONE_ITER_NTH_SKIP: usize = 9;
+    pub const ONE_ITER_BACK_SKIP: usize = 10;
+    pub const COMPLEMENT_LAST_WORD: usize = 11;
+    pub const RANK_Q: usize = 12;
+    pub const SPARSE_FZR_BINARY: usize = 13;
+    pub const SPARSE_FZR_LINEAR: usize = 14;
+    pub const RL_FLUSH_FIRST_BLOCK: usize = 15;
+    pub const RL_FLUSH_NEW_BLOCK_PADDED: usize = 16;
+    pub const RL_FLUSH_NEW_BLOCK_EXACT: usize = 17;
+    pub const RL_ITER_CROSS_BLOCK: usize = 18;
+    pub const SAMPLE_INDEX_MULTI: usize = 19;
+    pub const WRITE_INT_SINGLE: usize = 20;
+    pub const WRITE_INT_STRADDLE: usize = 21;
+    pub const READ_INT_SINGLE: usize = 22;
+    pub const READ_INT_STRADDLE: usize = 23;
+    pub const SELECT_PDEP: usize = 24;
+    pub const SELECT_TABLE: usize = 25;
+    pub const FLUSH_SAFE_CARRY: usize = 26;
+    pub const FLUSH_SAFE_EXACT: usize = 27;
+    pub const FLUSH_FINAL_EMPTY: usize = 28;
+    pub const FLUSH_FINAL_NONEMPTY: usize = 29;
+    pub const TAIL_CLEARED: usize = 30;
+    pub const MMAP_NEW: usize = 31;
+    pub const MMAP_DROP: usize = 32;
+    pub const SKIP_OPTION: usize = 33;
+    pub const COUNT: usize = 34;
+}
+
+const PROBE_NAMES: [&str; probe::COUNT] = [
+    "sel_build_long", "sel_build_short", "sel_q_superblock_start", "sel_q_long", "sel_q_long_ptr_nonzero",
+    "sel_q_short_block_start", "sel_q_short_scan", "sel_q_short_next_word",
+    "one_iter_next_skip", "one_iter_nth_skip", "one_iter_back_skip", "complement_last_word", "rank_q",
+    "sparse_fzr_binary", "sparse_fzr_linear",
+    "rl_flush_first_block", "rl_flush_new_block_padded", "rl_flush_new_block_exact", "rl_iter_cross_block", "sample_index_multi",
+    "write_int_single", "write_int_straddle", "read_int_single", "read_int_straddle", "select_pdep", "select_table",
+    "flush_safe_carry", "flush_safe_exact", "flush_final_empty", "flush_final_nonempty", "tail_cleared",
+    "mmap_new", "mmap_drop", "skip_option",
+];
+
+/// Bit set identifiers: each is a 128-bit set of small values seen.
+pub mod set {
+    pub const SPARSE_LOW_WIDTH: usize = 0;
+    pub const RL_CODE_UNITS: usize = 1;
+    pub const COUNT: usize = 2;
+}
+
+const SET_NAMES: [&str; set::COUNT] = ["sparse_low_width", "rl_code_units"];
+
+#[allow(clippy::declare_interior_mutable_const)]
+const ZERO: AtomicU64 = AtomicU64::new(0);
+static COUNTERS: [AtomicU64; probe::COUNT] = [ZERO; probe::COUNT];
+static SETS: [AtomicU64; 2 * set::COUNT] = [ZERO; 2 * set::COUNT];
+
+/// Increments the hit counter of a probe.
+#[inline]
+pub fn hit(id: usize) {
+    COUNTERS[id].fetch_add(1, Ordering::Relaxed);
+}
+
+/// Records a small value (`< 128`) in a bit set.
+#[inline]
+pub fn note(id: usize, value: usize) {
+    if value < 128 {
+        SETS[2 * id + value / 64].fetch_or(1u64 << (value % 64), Ordering::Relaxed);
+    }
+}
+
+/// Returns the probe names.
+pub fn probe_names() -> &'static [&'static str] {
+    &PROBE_NAMES
+}
+
+/// Returns the bit set names.
+pub fn set_names() -> &'static [&'static str] {
+    &SET_NAMES
+}
+
+/// Returns the current values of the hit counters.
+pub fn counters() -> Vec<u64> {
+    COUNTERS.iter().map(|c| c.load(Ordering::Relaxed)).collect()
+}
+
+/// Returns the current contents of the bit sets.
+pub fn sets() -> Vec<u128> {
+    (0..set::COUNT).map(|i| {
+        (SETS[2 * i].load(Ordering::Relaxed) as u128) | ((SETS[2 * i + 1].load(Ordering::Relaxed) as u128) << 64)
+    }).collect()
+}
+
+/// Clears all counters and bit sets.
+pub fn reset() {
+    for c in COUNTERS.iter() { c.store(0, Ordering::Relaxed); }
+    for s in SETS.iter() { s.store(0, Ordering::Relaxed); }
+}
+
+//-----------------------------------------------------------------------------
+
+static OOB_FLAG: AtomicBool = AtomicBool::new(false);
+static OOB_COUNT: AtomicU64 = AtomicU64::new(0);
+
+/// Returns `true` if a bounds hook has ever fired in this process.
+pub fn oob_flag() -> bool {
+    OOB_FLAG.load(Ordering::SeqCst)
+}
+
+/// Returns the number of times a bounds hook has fired.
+pub fn oob_count() -> u64 {
+    OOB_COUNT.load(Ordering::SeqCst)
+}
+
+/// Clears the sticky flag (the count is kept).
+pub fn oob_clear() {
+    OOB_FLAG.store(false, Ordering::SeqCst);
+}
+
+/// Reports a violated precondition of an unchecked accessor.
+#[cold]
+#[inline(never)]
+pub fn oob(site: &'static str, index: usize, limit: usize) -> ! {
+    OOB_FLAG.store(true, Ordering::SeqCst);
+    OOB_COUNT.fetch_add(1, Ordering::SeqCst);
+    eprintln!("VERIF-OOB {} {} {}", site, index, limit);
+    panic!("VERIF-OOB {} {} {}", site, index, limit);
+}
+
+//-----------------------------------------------------------------------------
